@@ -3,6 +3,8 @@ package nc
 import (
 	"fmt"
 	"go/types"
+	"sort"
+	"strings"
 
 	"golang.org/x/tools/go/ssa"
 )
@@ -550,4 +552,296 @@ func ptrSourceName(v ssa.Value) string {
 		}
 	}
 	return "a value"
+}
+
+// c17ForeignProofsStayOut: a token received from an untrusted mint with swap-to-trusted is melted there and
+// minted at the trusted mint; its proofs (and those of the SIG_ALL pre-swap at the untrusted mint) are never
+// the wallet's own. No wallet-storage write reachable from swapToTrusted - through shared helpers, read in
+// the context of this caller - takes proofs that derive from them: a failed melt must not leave the token's
+// value in the balance while the caller still holds the token.
+func (c *Ctx) c17ForeignProofsStayOut(rule string) {
+	R := c.R
+	f := c.fn(rule, "wallet.(*Wallet).swapToTrusted")
+	if f == nil {
+		return
+	}
+	fk := c.P.FuncKey(f)
+	var taints []string
+	for _, p := range f.Params[1:] {
+		if n, ok := p.Type().(*types.Named); ok && n.Obj().Name() == "Proofs" {
+			taints = append(taints, "P:"+p.Name())
+		}
+	}
+	if len(taints) == 0 {
+		R.Unresolved(rule, "proofs parameter of "+fk, "not found")
+		return
+	}
+	nWrites := 0
+	seen := map[*ssa.Function]bool{}
+	var walk func(o *Origins, g *ssa.Function, depth int)
+	walk = func(o *Origins, g *ssa.Function, depth int) {
+		for _, ci := range Calls(g) {
+			d := c.P.Describe(ci)
+			if d.Iface != nil && (d.Iface.Name() == "SaveProofs" || strings.HasPrefix(d.Iface.Name(), "AddPendingProofs")) && len(d.Args) > 0 {
+				nWrites++
+				ae := o.Of(d.Args[0])
+				a := ae.String()
+				bad := ""
+				if foreignProofs(ae, taints, 0) {
+					bad = taints[0]
+				}
+				R.Check(rule, fk, "storage write "+d.Iface.Name()+" in "+c.P.FuncKey(g)+" does not take the token's proofs", c.P.InstrPos(ci), bad == "",
+					"no proofs of the untrusted mint are written into the wallet's buckets on the swap-to-trusted path", "argument derives from "+bad+": "+short(a, 160))
+				continue
+			}
+			callee := ci.Common().StaticCallee()
+			if callee == nil || callee.Blocks == nil || callee.Pkg == nil || !c.P.InModule(callee.Pkg.Pkg.Path()) || depth >= 3 || seen[callee] {
+				continue
+			}
+			// only helpers that are handed tainted proofs can write them
+			handed := false
+			for _, arg := range ci.Common().Args {
+				if foreignProofs(o.Of(arg), taints, 0) {
+					handed = true
+				}
+			}
+			if !handed {
+				continue
+			}
+			seen[callee] = true
+			walk(o.Enter(callee, ci), callee, depth+1)
+			delete(seen, callee)
+		}
+	}
+	walk(c.P.OriginsOf(f), f, 0)
+	R.Check(rule, fk, "swap-to-trusted path examined", c.P.Pos(f.Pos()), true, "the helpers that receive the token's proofs were read in this caller's context", fmt.Sprintf("%d storage writes met", nWrites))
+}
+
+// foreignProofs: the expression is the list of foreign proofs itself, the result of the pre-swap at the
+// untrusted mint, or a list built from their elements (a copy, a filtered or stripped list, one of several).
+// A value merely computed from them (an amount, a quote id) is not.
+func foreignProofs(e *Ex, taints []string, depth int) bool {
+	if e == nil || depth > 5 {
+		return false
+	}
+	for _, t := range taints {
+		if e.String() == t {
+			return true
+		}
+	}
+	switch e.K {
+	case "call":
+		return e.S == "wallet.swap" && e.Idx == 0
+	case "phi", "map", "slice", "acc", "append", "elem", "with", "spread":
+		for _, a := range e.Args {
+			if foreignProofs(a, taints, depth+1) {
+				return true
+			}
+		}
+	}
+	return false
+}
+
+// ruleStoredRecordShape: the wallet's bbolt storage keeps each kind of record (keyset, proof, pending proof,
+// mint quote, melt quote) as JSON. Every method that writes or reads one kind must agree on the JSON members
+// of the record: a method that re-writes a record through a narrower type (a read-modify-write of the counter
+// through a struct without the fee) silently drops the members it does not name. Per kind - taken from the
+// noun in the method's name - all struct types handed to json.Marshal / json.Unmarshal in the methods (with
+// their closures and helpers new on this tree) have the same set of JSON member names.
+func (c *Ctx) ruleStoredRecordShape(rule string, pkg string, min int) {
+	R := c.R
+	nouns := []string{"PendingProof", "Proof", "Keyset", "MintQuote", "MeltQuote"}
+	type use struct {
+		fn   *ssa.Function
+		t    *types.Named
+		at   ssa.Instruction
+		keys map[string]bool
+		w    bool
+	}
+	groups := map[string][]use{}
+	structOf := func(t types.Type) *types.Named {
+		for i := 0; i < 4; i++ {
+			switch x := t.(type) {
+			case *types.Pointer:
+				t = x.Elem()
+				continue
+			case *types.Slice:
+				t = x.Elem()
+				continue
+			case *types.Named:
+				if _, ok := x.Underlying().(*types.Struct); ok {
+					return x
+				}
+				return nil
+			}
+			break
+		}
+		return nil
+	}
+	jsonKeys := func(n *types.Named) map[string]bool {
+		out := map[string]bool{}
+		st := n.Underlying().(*types.Struct)
+		for i := 0; i < st.NumFields(); i++ {
+			f := st.Field(i)
+			if !f.Exported() {
+				continue
+			}
+			name := f.Name()
+			if tag := reflectTagJSON(st.Tag(i)); tag != "" {
+				if tag == "-" {
+					continue
+				}
+				name = tag
+			}
+			out[strings.ToLower(name)] = true
+		}
+		return out
+	}
+	for _, f := range c.P.Funcs {
+		if f.Parent() != nil || f.Pkg == nil || c.P.Rel(f.Pkg.Pkg.Path()) != pkg || f.Blocks == nil || f.Signature.Recv() == nil || c.P.IsNewFunc(f) {
+			continue
+		}
+		noun := ""
+		for _, nn := range nouns {
+			if strings.Contains(f.Name(), nn) {
+				noun = nn
+				break
+			}
+		}
+		if noun == "" {
+			continue
+		}
+		for _, g := range c.OpFuncs(f) {
+			for _, ci := range Calls(g) {
+				d := c.P.Describe(ci)
+				var arg ssa.Value
+				write := false
+				switch d.Name {
+				case "encoding/json.Marshal":
+					arg, write = d.Args[0], true
+				case "encoding/json.Unmarshal":
+					arg = d.Args[1]
+				default:
+					continue
+				}
+				if mi, ok := arg.(*ssa.MakeInterface); ok {
+					arg = mi.X
+				}
+				if n := structOf(arg.Type()); n != nil {
+					groups[noun] = append(groups[noun], use{f, n, ci, jsonKeys(n), write})
+				}
+			}
+		}
+	}
+	total := 0
+	for _, noun := range nouns {
+		us := groups[noun]
+		if len(us) == 0 {
+			continue
+		}
+		// reference: the type used most often
+		count := map[*types.Named]int{}
+		for _, u := range us {
+			count[u.t]++
+		}
+		var ref *types.Named
+		for t, k := range count {
+			if ref == nil || k > count[ref] || (k == count[ref] && t.Obj().Name() < ref.Obj().Name()) {
+				ref = t
+			}
+		}
+		refKeys := jsonKeys(ref)
+		for _, u := range us {
+			if !u.w {
+				continue // a reader that names fewer members loses nothing
+			}
+			total++
+			var diff []string
+			for k := range refKeys {
+				if !u.keys[k] {
+					diff = append(diff, "-"+k)
+				}
+			}
+			for k := range u.keys {
+				if !refKeys[k] {
+					diff = append(diff, "+"+k)
+				}
+			}
+			sort.Strings(diff)
+			R.Check(rule, c.P.FuncKey(u.fn), noun+" record has the members of "+ref.Obj().Name(), c.P.InstrPos(u.at), len(diff) == 0,
+				"every method that stores or loads a "+noun+" record uses a type with the same JSON members (a narrower type drops members on re-write)",
+				fmt.Sprintf("%s differs from %s in members %v", u.t.Obj().Name(), ref.Obj().Name(), diff))
+		}
+	}
+	if total < min {
+		R.Unresolved(rule, "JSON records of "+pkg, fmt.Sprintf("%d marshal / unmarshal sites in methods named after a record, expected at least %d", total, min))
+	}
+}
+
+// ruleNoAppendIntoLivePrefix: `append(x[:k], ...)` writes behind position k of x's backing array whenever
+// it has room - into the elements that x[k:] (or x itself) still names. In the packages given no append takes
+// a proper prefix of a list (upper bound set, not len(x), not 0, no capacity bound) while that list or another
+// slice of it is used afterwards. (Proof selection keeps two candidate lists it moves elements between;
+// a proof written over another is selected twice or lost.)
+func (c *Ctx) ruleNoAppendIntoLivePrefix(rule string, pkgs []string) {
+	R := c.R
+	nAppend := 0
+	for _, f := range c.P.Funcs {
+		top := EnclosingTop(f)
+		if top.Pkg == nil || f.Blocks == nil {
+			continue
+		}
+		in := false
+		for _, p := range pkgs {
+			if c.P.Rel(top.Pkg.Pkg.Path()) == p {
+				in = true
+			}
+		}
+		if !in {
+			continue
+		}
+		for _, ci := range Calls(f) {
+			call, ok := ci.(*ssa.Call)
+			if !ok {
+				continue
+			}
+			bi, ok := call.Call.Value.(*ssa.Builtin)
+			if !ok || bi.Name() != "append" || len(call.Call.Args) == 0 {
+				continue
+			}
+			nAppend++
+			sl, ok := call.Call.Args[0].(*ssa.Slice)
+			if !ok || sl.High == nil || sl.Max != nil {
+				continue
+			}
+			if k, isC := constInt(sl.High); isC && k == 0 {
+				continue // x[:0]: the in-place filter idiom, x is rebuilt from its start
+			}
+			if lenArg(sl.High) == sl.X {
+				continue
+			}
+			if _, isArr := sl.X.Type().Underlying().(*types.Pointer); isArr {
+				continue // a prefix of a local array used as a buffer
+			}
+			// is the base (or another slice of it) used after the append?
+			live := ""
+			if refs := sl.X.Referrers(); refs != nil {
+				for _, r := range *refs {
+					if r == ssa.Instruction(sl) || r == ssa.Instruction(call) {
+						continue
+					}
+					if _, isDbg := r.(*ssa.DebugRef); isDbg {
+						continue
+					}
+					if reach, _ := Reach(Point{call.Block(), instrIndex(call) + 1}, PointOf(r), NewCut()); reach {
+						live = c.P.InstrPos(r)
+					}
+				}
+			}
+			R.Check(rule, c.P.FuncKey(top), "append into a prefix of a list that stays in use", c.P.InstrPos(call), live == "",
+				"no append takes a proper prefix x[:k] of a list while x or another slice of x is used afterwards (the append overwrites the elements behind k)",
+				"the list is used again at "+live)
+		}
+	}
+	R.Check(rule, "-", "appends examined", "", nAppend >= 20, "the rule looked at the append calls of the packages", fmt.Sprintf("%d appends", nAppend))
 }
